@@ -409,6 +409,50 @@ Proof.
   intros A l lim k q HL HC. unfold get_slice, page. rewrite HL, HC. destruct k; reflexivity.
 Qed.
 
+(* a filtered listing is paged AFTER the filter: the k-th page of GET /submodels?idShort=... (no semanticId filter) and
+   of GET /shells?idShort=... (no assetIds filter) is the k-th page of the matching objects of the store *)
+Lemma get_submodels_filtered_page : forall s lim k q,
+  q_semid q = None ->
+  q_limit q = QNat lim -> q_cursor q = (match k with O => QAbsent | _ => QNat (k * lim) end) ->
+  get_submodels s q = Ok (page lim (filter (fun x => ids_match (q_idshort q) (sm_ids x)) (sms_of s)) k, ((k * lim) + lim)%nat).
+Proof.
+  intros s lim k q HS HL HC. unfold get_submodels. rewrite HS. simpl. now apply get_slice_page.
+Qed.
+Lemma get_shells_filtered_page : forall s lim k q,
+  q_assetids q = [] ->
+  q_limit q = QNat lim -> q_cursor q = (match k with O => QAbsent | _ => QNat (k * lim) end) ->
+  get_shells s q = Ok (page lim (filter (fun x => ids_match (q_idshort q) (sh_ids x)) (shells_of s)) k, ((k * lim) + lim)%nat).
+Proof.
+  intros s lim k q HS HL HC. unfold get_shells. rewrite HS. simpl. now apply get_slice_page.
+Qed.
+(* ... so following the cursor visits exactly the matching objects, each once, in listing order *)
+Lemma filtered_paging_complete : forall A (f : A -> bool) (l : list A) lim n, (0 < lim)%nat -> (List.length l <= n * lim)%nat ->
+  List.concat (map (page lim (filter f l)) (seq 0 n)) = filter f l.
+Proof.
+  intros A f l lim n H0 HL. apply paging_complete; [assumption|].
+  clear H0. induction l as [|a l IH] in n, lim, HL |- *; simpl in *; [apply Nat.le_0_l|].
+  assert (HF : (List.length (filter f l) <= List.length l)%nat).
+  { clear. induction l as [|b l IH]; simpl; [apply Nat.le_refl|]. destruct (f b); simpl; [now apply le_n_S | now apply Nat.le_le_succ_r]. }
+  destruct (f a); simpl.
+  - eapply Nat.le_trans; [apply le_n_S, HF | exact HL].
+  - eapply Nat.le_trans; [apply Nat.le_le_succ_r, HF | exact HL].
+Qed.
+
+(* the hypotheses are satisfiable on a store in which a non-matching submodel precedes the matching ones: the second
+   page (limit 1) of the listing filtered by idShort 7 is the SECOND matching submodel (id 3), not the second stored one *)
+Definition filter_sm (i : ident) (n : name) : submodel := {| sm_id := i; sm_ids := Some n; sm_tok := 1; sm_quals := []; sm_ch := [] |}.
+Definition filter_state : state :=
+  {| st_objs := [(2, OSm (filter_sm 2 8)); (1, OSm (filter_sm 1 7)); (4, OSm (filter_sm 4 8)); (3, OSm (filter_sm 3 7))];
+     st_files := Files.init; st_backed := false |}.
+Definition filter_query (k : nat) : query :=
+  {| q_limit := QNat 1; q_cursor := (match k with O => QAbsent | _ => QNat (k * 1) end); q_core := false; q_idshort := Some 7;
+     q_assetids := []; q_semid := None |}.
+Lemma filtered_page_example :
+  (q_semid (filter_query 1) = None) /\
+  (map (fun k => match get_submodels filter_state (filter_query k) with Ok (l, c) => (map sm_id l, c) | Exc _ => ([], 0%nat) end) [0; 1; 2]%nat
+   = [([1], 1%nat); ([3], 2%nat); ([], 3%nat)]).
+Proof. split; vm_compute; reflexivity. Qed.
+
 (* ---------------- the store as a map *)
 Lemma zlookup_app_new : forall {B} k (v : B) l, zlookup k l = None -> zlookup k (l ++ [(k, v)]) = Some v.
 Proof.
